@@ -196,3 +196,10 @@ PROPS["C05"]["components"] = dict(PROPS["C05"]["components"])
 PROPS["C05"]["components"]["real"] = list(PROPS["C05"]["components"]["real"]) + ["(every fourth seed) " + x for x in WORLD_B_COMPONENTS["real"][:6]]
 PROPS["C05"]["components"]["simulated"] = list(PROPS["C05"]["components"]["simulated"]) + ["(every fourth seed) file system, processes, pipes, signals"]
 PROPS["C05"]["components"]["stub"] = list(PROPS["C05"]["components"].get("stub", [])) + WORLD_B_COMPONENTS["stub"]
+
+PROPS["C04"]["rule"] += (" Every fourth seed runs the build-system variant: the process dies before a sampled database call of a world B build while "
+                         "simulated compilers are writing outputs; integrity check, stored epoch, and convergence of the rest of the history (new "
+                         "frontends, edits that also revert files to earlier content) to clean-build contents. That share is sampled, not enumerated.")
+PROPS["C04"]["components"] = dict(PROPS["C04"]["components"])
+PROPS["C04"]["components"]["real"] = list(PROPS["C04"]["components"]["real"]) + ["(every fourth seed) " + x for x in WORLD_B_COMPONENTS["real"][:6]]
+PROPS["C04"]["components"]["stub"] = list(PROPS["C04"]["components"].get("stub", [])) + WORLD_B_COMPONENTS["stub"]
